@@ -665,6 +665,19 @@ def canon_guard_semantics(ctx, scope):
                                 if 'assign' in s2 and s2['assign'].get('p') and s2['rv']['k'] == 'use' and const_int(s2['rv']['op']) == 1 and \
                                         ('named_type_written' in origin(b, s2['assign']).fields or is_bool_table(b.local_ty(s2['assign']['l']) or '') or 'bool' in (b.local_ty(s2['assign']['l']) or '')):
                                     marked = True
+                    # ... on the first-occurrence edge itself: every two-way test that decides whether the mark is written
+                    # decides the count the same way (counting a *reference* to a named type as a new name lets a cycle of
+                    # unnamed containers through one reference go round for ever)
+                    if marked:
+                        mark_bbs = []
+                        for x in b.live_blocks():
+                            for s2 in b.stmts(x):
+                                if 'assign' in s2 and s2['assign'].get('p') and s2['rv']['k'] == 'use' and const_int(s2['rv']['op']) == 1 and \
+                                        ('named_type_written' in origin(b, s2['assign']).fields or is_bool_table(b.local_ty(s2['assign']['l']) or '') or 'bool' in (b.local_ty(s2['assign']['l']) or '')):
+                                    mark_bbs.append(x)
+                        mine = {(d_, str(tk_)) for d_, si_, tk_ in dominating_switches(b, bb)}
+                        same_edge = any({(d_, str(tk_)) for d_, si_, tk_ in dominating_switches(b, mb_) if not b.dominates(mb_, d_)} <= mine for mb_ in mark_bbs)
+                        marked = same_edge
                     # (one statement of a helper spliced into several call sites is one write)
                     site = b.blocks[bb].get('inlined_bb') or '%s#%d' % (fn_label(b), bb)
                     cw.append((fn_label(b), inc and marked, site))
